@@ -107,46 +107,103 @@ func c01Shape(g *genRun, w string) string {
 	return "c01_other"
 }
 
-// a segment that is flushed while exactly one line is pending and that line is not an atom
+// The shape of known finding C01-single-line-raw, as narrowly as the code's behaviour allows:
+// a segment flushed while exactly ONE line is pending is copied raw into the output buffer; that
+// is harmless as long as the raw text stays alone in the buffer (the buffer is grouped as a whole
+// when the block completes).  It changes the meaning exactly when the raw text needs a group
+// (top-level alternation) AND the buffer already holds text or receives more text afterwards.
 func hasRawSingleLineSegment(items []*Item, p *Prog) bool {
-	pending := 0
-	var lastText string
-	risky := func() bool { return pending == 1 && (hasTopLevelAlt(lastText) || true) }
 	found := false
-	var walk func(items []*Item)
-	walk = func(items []*Item) {
-		for _, it := range items {
-			switch it.Kind {
-			case "entry":
-				pending++
-				lastText = it.Text
-			case "assemble":
-				if hasRawSingleLineSegment(it.Kids, p) {
+	stashRaw := map[string]bool{}
+	var block func(items []*Item)
+	block = func(items []*Item) {
+		pending := 0
+		lastText := ""
+		outNonEmpty := false
+		rawAlone := false
+		flush := func() {
+			if pending == 0 {
+				return
+			}
+			if pending == 1 && needsGroup(lastText) {
+				if outNonEmpty {
 					found = true
+				} else {
+					rawAlone = true
 				}
-				pending++
-				lastText = "(?:x)"
-			case "cmdline":
-				pending++
-				lastText = "x|y" // the Join result of a cmdline block is not grouped
-			case "concat", "store", "append":
-				if risky() && needsGroup(lastText) {
-					found = true
-				}
-				pending = 0
-			case "include":
-				if f := p.Files[it.Text]; f != nil {
-					if len(f.Prefixes) == 0 && len(f.Suffixes) == 0 {
-						walk(f.Body)
-					} else {
-						pending++
-						lastText = "(?:x)"
+			} else if rawAlone {
+				found = true
+			}
+			outNonEmpty = true
+			pending = 0
+		}
+		var walk func(items []*Item)
+		walk = func(items []*Item) {
+			for _, it := range items {
+				switch it.Kind {
+				case "entry":
+					pending++
+					lastText = it.Text
+				case "assemble":
+					block(it.Kids)
+					pending++
+					lastText = "(?:x)"
+				case "cmdline":
+					pending++
+					lastText = "x|y" // the Join result of a cmdline block is not grouped
+				case "concat":
+					flush()
+				case "store":
+					flush()
+					stashRaw[it.Text] = rawAlone
+					outNonEmpty, rawAlone = false, false
+				case "append":
+					flush()
+					if stashRaw[it.Text] {
+						if outNonEmpty {
+							found = true
+						} else {
+							rawAlone = true
+						}
+					} else if rawAlone {
+						found = true
+					}
+					outNonEmpty = true
+				case "include":
+					if f := p.Files[it.Text]; f != nil {
+						if len(f.Prefixes) == 0 && len(f.Suffixes) == 0 {
+							walk(f.Body)
+						} else {
+							// emitted as a local block: prefix / ##!=> / entries / ##!=> / suffix
+							n := 0
+							for _, k := range f.Body {
+								if k.Kind == "entry" {
+									n++
+								}
+							}
+							for _, a := range append(append([]string{}, f.Prefixes...), f.Suffixes...) {
+								if needsGroup(a) {
+									found = true
+								}
+							}
+							if n == 1 {
+								for _, k := range f.Body {
+									if k.Kind == "entry" && needsGroup(k.Text) {
+										found = true
+									}
+								}
+							}
+							pending++
+							lastText = "(?:x)"
+						}
 					}
 				}
 			}
 		}
+		walk(items)
+		// block end: the remaining lines are joined and grouped; a raw buffer followed by them is grouped as a whole
 	}
-	walk(items)
+	block(items)
 	return found
 }
 
